@@ -430,6 +430,9 @@ pub(crate) mod kit {
             match ch.consume(j as u32) { Some(d) => { assert!(C::payload_of(&d) == x, "listener receives the events in send order (1st)"); std::mem::forget(d); }, None => assert!(false, "must yield") }
             match ch.consume(j as u32) { Some(d) => { assert!(C::payload_of(&d) == y, "listener receives the events in send order (2nd)"); std::mem::forget(d); }, None => assert!(false, "must yield") }
             assert!(ch.consume(j as u32).is_none(),                          "nothing else is yielded (no value that was not sent)");
+            // C06: flush / close wait for `pending_items_count() == 0`, so it must be the LONGEST listener queue -- a slower listener's backlog counts
+            if live_n >= 2 { assert!(ch.pending_items_count() == 2,           "pending_items_count == longest listener queue (listener j is drained, another one still holds both events)"); }
+            else           { assert!(ch.pending_items_count() == 0,           "pending_items_count == 0 once the only listener is drained"); }
         }
         kani::cover!(live_n == M as u32, "all MAX_STREAMS listeners live");
         kani::cover!(live_n == 0, "no listener at all");
